@@ -76,3 +76,11 @@ Example C01_nonvacuous :
      SSleepStartA p_spacing; Tick p_spacing; SWake; SDeq (ICmd 7 [65]%N)] = Some s
   /\ g_drained s = [] /\ map snd (g_wire s) = [IKA] /\ hand (spc_ s) = [ICmd 1 [65]%N].
 Proof. eexists. split; [vm_compute; reflexivity|repeat split]. Qed.
+
+(* The model's caller step puts every submitted command into the queue.  That the code's raw()/put()/keep-alive do the
+   same -- a plain blocking put, or a non-blocking one on a queue without a size bound, with no exception handler on the
+   path that could drop the item (one level of helpers followed) -- is read off the AST of ynca/connection.py on every
+   run (Gen/Params.v, false when the shape is not recognised). *)
+Theorem C01_a_submitted_command_enters_the_queue : p_enqueue_lossless = true.
+Proof. reflexivity. Qed.
+Print Assumptions C01_a_submitted_command_enters_the_queue.
